@@ -261,6 +261,11 @@ def shard(i, n, tier, seed, rec, hb):
         da = rng.choice(DIALECTS)
         cfga = gen_config(rng, da)
         gm = gen_module(rng, da, cfga["width"], pvl.collections, max_depth=2)
+        if any(cls in ("name:not-a-name", "name:keyword") for _, cls, _ in gm.names):
+            # (the encoders do not vet PVL/ISIS parameter names: an empty name or
+            # one with a blank or '=' in it gives text that is no label at all)
+            rec.count("encoder_source_skipped_unwritable_name")
+            continue
         try:
             with common.cpu_limit(60):
                 t0 = make_encoder(pvl, da, cfga).encode(gm.module)
